@@ -118,6 +118,11 @@ def upperRune (r : Nat) : Nat :=
   else if r == 0x17F then 83
   else r
 
+/-- the input holds one of the two runes whose upper case is an ASCII letter: the keyword tables of the Clustal,
+Stockholm and Nexus lexers (`switch strings.ToUpper(lit)`) then see a letter that the byte-wise `upper` of the models
+does not produce; the models of these three formats make no claim for such an input -/
+def hasFoldRune (s : List Byte) : Bool := (runes s).any fun r => r == 0x131 || r == 0x17F
+
 /-- `strings.ToUpper` of a literal, as far as the comparison with ASCII keywords can tell -/
 def upperLit (s : List Byte) : List Byte := ((runes s).map upperRune).flatMap encodeRune
 
